@@ -249,6 +249,27 @@ def conc_cases(prop, rnd, quick):
                                   calls=cs, order=order + [first] * 400, post=True, expectall=True,     # TLC proves AllSucceed for these scenarios (Mkdir2 / Remove2): "concurrent calls all succeed"
                                   mkmode=calls[0].get("mode", 0o755),
                                   meta=dict(kind="concurrent", tree=tname, calls=calls, backend=bname, order_prefix=order, alone_ok=ok)))
+    if prop == "C12":
+        # two callers that are DIFFERENT unprivileged users in a tree everybody may write (all directories 0777, umask 0,
+        # requested mode 0777): permissions never say no, so the concurrency clause ("all succeed and return handles to the
+        # same directories") holds as for one user -- each finds directories the other one created and owns
+        t777 = [dict(id=90, p=2, n="", k="rootattr", mode=0o777)] + [dict(n, mode=0o777) if n["k"] == "dir" else n for n in CONC_TREES["mk"]]
+        for calls in ([dict(op="mkdir_all", path="a/b/x/y/z", mode=0o777), dict(op="mkdir_all", path="a/b/x/y/z", mode=0o777)],
+                      [dict(op="mkdir_all", path="n1/n2/n3/n4", mode=0o777), dict(op="mkdir_all", path="la/../../n1/n2/m", mode=0o777)]):
+            calls = [dict(calls[0], euid=12345), dict(calls[1], euid=23456)]
+            for bname, feat in rootops_static.FEATS:
+                scheds = []
+                for first in (0, 1):
+                    for k in range(0, 26):
+                        for m in range(0, 26, 2):
+                            scheds.append([first] * k + [1 - first] * m)
+                space += len(scheds)
+                rnd.shuffle(scheds)
+                for si, order in enumerate(scheds[:60 if quick else 400]):
+                    cs = [dict(c, proc=pi) for pi, c in enumerate(calls)]
+                    cases.append(dict(id="conc2u|%s|%s|%d" % (calls[0]["path"], bname, si), tree=t777, feat=feat, trace=True, raw=False, procs=2, umask=0,
+                                      calls=cs, order=order + [order[0] if order else 0] * 400, post=True, expectall=True, mkmode=0o777,
+                                      meta=dict(kind="concurrent", tree="mk777-two-users", calls=calls, backend=bname, order_prefix=order, alone_ok=[True, True])))
     # schedules derived from the state graph of the two-process model (one per transition), for the
     # backend the model describes (openat2-style partial lookup)
     tlc_info = {}
